@@ -71,7 +71,9 @@ SPEC = {
             "scales (coordinates k/2^34 and k*2^30 in f64, k/2^14 and k*2^30 in f32: squared side lengths far below machine "
             "epsilon / far above 1) which must behave exactly as at unit scale; f32 (implementation only). "
             "distinct_nontrivial = distinct implementation transcripts.",
-    "not_proved": [],   # filled below
+    "not_proved": [
+        "clause that is FALSE on the current tree: known finding C11-crack (two 2-free darts between the same two vertices in opposite "
+        "directions are sewn by the round trip; C11_crack_is_sewn proves it of the model)",],   # filled below
 }
 
 SPEC["not_proved"] = [
